@@ -62,8 +62,31 @@ def assigned_names(stmts):
 
 
 class LoopSpec:
-    def __init__(self, invariant, havoc, variant=None, name=''):
+    def __init__(self, invariant, havoc, variant=None, name='', unchanged=()):
         self.invariant, self.havoc, self.variant, self.name = invariant, havoc, variant, name
+        self.unchanged = tuple(unchanged)     # locals that iterations which do not leave the loop must not modify
+
+    @staticmethod
+    def _snap(v):
+        if isinstance(v, B.PyList):
+            return ('list', id(v), v.seq, None if v.items is None else list(v.items))
+        return ('val', v)
+
+    def _same(self, snap, v):
+        if snap[0] == 'list':
+            if not isinstance(v, B.PyList) or id(v) != snap[1] or v.seq is not snap[2]:
+                return False
+            return v.items is None and snap[3] is None or (v.items is not None and snap[3] is not None and
+                                                            len(v.items) == len(snap[3]) and
+                                                            all(a is b for a, b in zip(v.items, snap[3])))
+        a, b = snap[1], v
+        if a is b:
+            return True
+        try:
+            from .values import z_eq
+            return z_eq(a, b)
+        except Exception:
+            return False
 
     def _nm(self, interp, key, what):
         return f'{interp.cur_name()}/{what}:loop{key[1]}'
@@ -82,7 +105,7 @@ class LoopSpec:
         self.havoc(L)
         changed = {n for n, v in fr.vars.items() if n not in before or before[n] is not v}
         must = {n for n in assigned_names(s.body) if n in before} | set(extra)
-        missing = {n for n in must if n not in changed}
+        missing = {n for n in must if n not in changed and n not in self.unchanged}
         # locals first bound inside the body are loop-local; they need no havoc
         if missing:
             interp.run.oblige(self._nm(interp, key, 'frame'), False, kind='frame', meta=dict(
@@ -134,12 +157,16 @@ class LoopSpec:
             self._check_frame(interp, s, fr, key, L)
             run.assume(self.invariant(L))
             interp.assign(s.target, seq.get(k), fr)
+            snaps = {n: self._snap(fr.vars[n]) for n in self.unchanged if n in fr.vars}
             try:
                 interp.exec_block(s.body, fr)
             except BreakEx:
                 return
             except ContinueEx:
                 pass
+            for n, sn in snaps.items():
+                run.oblige(self._nm(interp, key, 'frame'), self._same(sn, fr.vars.get(n)), kind='frame',
+                           meta=dict(self._meta(interp), note=f'iteration that stays in the loop modified {n}'))
             L1 = LoopCtx(interp, fr, key, seq, k + 1, pre)
             run.oblige(self._nm(interp, key, 'inv-pres'), self.invariant(L1), kind='inv-pres', meta=self._meta(interp))
             raise PathEnd('end of loop-body iteration')
